@@ -23,12 +23,12 @@ from props import mech
 def run(ctx):
     out = ec.run_engine_check(
         ctx,
-        profile=[("conc", 216, 3600), ("order", 48, 900), ("mixed", 48, 900)],
+        profile=[("conc", 216, 7200), ("order", 48, 1800), ("mixed", 48, 1800)],
         n_quick=0, n_thorough=0,
         extra_header="From Coercion.C02 Require Import MonC02.",
         monitors=["mon_conc", ("mon_conc_diag", "list"), ("conc_peak", "list")],
         release_obligation=False,
-        multi_quick=48, multi_thorough=720,
+        multi_quick=48, multi_thorough=1440,
         proj="c02",
         pre_checks=[mech.check_mechanisms],
         rule_extra="mon_conc_diag: [1;i;b;n;conc] = after event i, n sequences of block b in flight > Concurrency; "
